@@ -230,7 +230,7 @@ def run_block(block, gen_red, case):
             gen.main(path)
             mod = load_module(path)
             obj = mod.SFCModel()
-            core.with_deadline(20.0, obj.main)
+            core.with_deadline(30.0, obj.main)
         except core.WorkBudgetExceeded:
             viols.append(core.violation('unbounded-work', 'generated module did not stop', c2))
             break
